@@ -4,3 +4,4 @@ pub mod c14;
 pub mod c16;
 pub mod c09;
 pub mod c08;
+pub mod c02;
